@@ -35,7 +35,7 @@ C23 = dict(Acts=acts(["Write", "Chmod", "Delete", "FileToDir", "DirToFile", "Sym
            TreeIds="{7, 9}", SparseIds="{}", SymTargets='{"f"}', RootIgnore="{2, 3}", DirIgnore="{5}",
            MaxSteps=4, MaxEditRun=3)
 write("c23", ALLINV, **C23)
-write("c23_thorough", ALLINV, **dict(C23, MaxSteps=6, RootIgnore="{1, 2, 3, 4}", DirIgnore="{5, 6}"))
+write("c23_thorough", ALLINV, **dict(C23, MaxSteps=5, RootIgnore="{1, 2, 3, 4}", DirIgnore="{5, 6}"))
 for bug in ("snap-ignore-tracked", "snap-no-dir-delete", "snap-skip-ignored-dir"):
     write("neg_" + bug.replace("-", "_"), ["Inv_C23"], **dict(C23, Bug='"%s"' % bug, MaxSteps=5))
 
@@ -43,6 +43,10 @@ write("finding_dir_conflict", ["Inv_C23"], **dict(C23, Strict="TRUE", MaxSteps=3
                                                 Acts=acts(["DirToFile", "Snapshot", "CheckOut"])))
 write("finding_tracked_dir", ["Inv_C23"], **dict(C23, Strict="TRUE", MaxSteps=4, TreeIds="{4, 5}",
                                                Acts=acts(["FileToDir", "Snapshot", "CheckOut"])))
+
+write("finding_stale_ignored", ["Inv_C23"], **dict(C23, Strict="TRUE", MaxSteps=6, MaxEditRun=2, TreeIds="{1, 4}",
+                                                 RootIgnore="{7}", DirIgnore="{}", Contents="{2}", EditPaths="IgnoreEditPaths",
+                                                 Acts=acts(["Write", "FileToDir", "DirToFile", "Snapshot", "CheckOut"])))
 
 # ---- C24: pristine working copies: only jj actions, every tree, both exec policies
 C24 = dict(Acts=acts(["CheckOut", "Snapshot", "SetSparse"]), TreeIds="{1, 2, 3, 4, 5, 6, 7, 8, 9, 10}",
@@ -56,7 +60,7 @@ write("neg_co_keep_dirs", ["Inv_C24"], **dict(C24, Bug='"co-keep-dirs"'))
 C25 = dict(Acts=acts(["Write", "Symlink", "FileToDir", "DirToFile", "CheckOut"]), TreeIds="{1, 3, 4, 5, 6}",
            SparseIds="{}", RootIgnore="{}", DirIgnore="{}", MaxSteps=4, MaxEditRun=2, Contents="{2}")
 write("c25", ALLINV, **C25)
-write("c25_thorough", ALLINV, **dict(C25, MaxSteps=6, Contents="{1, 2}", RootIgnore="{2, 3}",
+write("c25_thorough", ALLINV, **dict(C25, MaxSteps=5, Contents="{1, 2}", RootIgnore="{2, 3}",
                                      Acts=acts(["Write", "Symlink", "FileToDir", "DirToFile", "Delete", "CheckOut", "Snapshot"])))
 write("neg_co_overwrite", ["Inv_C25"], **dict(C25, Bug='"co-overwrite"'))
 write("neg_co_follow_symlink", ["Inv_C25"], **dict(C25, Bug='"co-follow-symlink"'))
